@@ -23,8 +23,8 @@ package util
 //@ ensures [nodata] inputLen <= 0 ==> result1 != nil && len(result0) == 0
 //@ hint-after calculateExtentSize@1 [workers] true
 //@ hint-after Scatter$1@1 [extent] offset == worker * extentSize && 0 <= offset && entries >= 1 && offset + entries <= inputLen && (entries == extentSize || offset + entries == inputLen) && (worker == workers - 1 ==> offset + entries == inputLen) && (worker < workers - 1 ==> entries == extentSize)
-//@ loop #1
+//@ loop #1 over range workers
 //@ invariant [range] 0 <= _n && _n < workers
 //@ invariant [cover] extentSize >= 1 && (workers - 1) * extentSize < inputLen && inputLen <= workers * extentSize
-//@ loop #2
+//@ loop #2 over range workers
 //@ invariant [range] 0 <= _n && _n < workers && len(results) == workers
